@@ -202,6 +202,48 @@ Lemma adts_roundtrip h rest :
   adts_canonical h = true -> decode_adts (encode_adts h ++ rest) = Ok (h, 0%Z).
 Proof. intros Hc. apply (adts_sync_offset [] h rest); try reflexivity; [cbn [length]; lia|exact Hc]. Qed.
 
+(* ---------- the search finds the FIRST sync word of any input (naive scan) ---------- *)
+Lemma first_sync_split : forall l p,
+  first_sync l = Some p ->
+  exists junk x T, l = junk ++ 255 :: x :: T /\ length junk = p /\ is_sync2 x = true
+                   /\ no_sync_in junk = true.
+Proof.
+  induction l as [|b t IH]; intros p H; [discriminate|].
+  cbn [first_sync] in H.
+  destruct ((b =? 255) && match t with x :: _ => is_sync2 x | [] => false end) eqn:E.
+  - injection H as <-. apply andb_prop in E. destruct E as [Eb Ex]. apply N.eqb_eq in Eb. subst b.
+    destruct t as [|x T]; [discriminate|].
+    exists [], x, T. repeat split; assumption.
+  - destruct (first_sync t) as [q|] eqn:Eq; [|discriminate]. injection H as <-.
+    destruct (IH q eq_refl) as (junk & x & T & -> & Hlen & Hx & Hns).
+    exists (b :: junk), x, T. repeat split; try assumption.
+    + cbn [length]. now rewrite Hlen.
+    + cbn [no_sync_in]. rewrite Hns, andb_true_r.
+      destruct junk as [|y j'].
+      * cbn [app] in E. change (is_sync2 255) with false in E. now rewrite andb_false_r.
+      * cbn [app] in E. now rewrite E.
+Qed.
+
+Lemma sync_first data p :
+  bytes_ok data = true -> first_sync data = Some p -> (p <= 187)%nat ->
+  exists x T,
+    data = firstn p data ++ 255 :: x :: T /\ is_sync2 x = true /\
+    sync_loop ts_packet_size (rinit data) 0 0%Z = (true, x, Z.of_nat p, mkR (unpack T) false).
+Proof.
+  intros Hb Hf Hp.
+  destruct (first_sync_split data p Hf) as (junk & x & T & -> & Hlen & Hx & Hns).
+  exists x, T.
+  rewrite bytes_ok_app in Hb. apply andb_prop in Hb. destruct Hb as [Hbj Hb].
+  rewrite !bytes_ok_cons in Hb. apply andb_prop in Hb. destruct Hb as [_ Hb].
+  apply andb_prop in Hb. destruct Hb as [Hbx _]. unfold byte_ok in Hbx. apply N.ltb_lt in Hbx.
+  split; [|split; [exact Hx|]].
+  - rewrite <- Hlen. rewrite firstn_app, Nat.sub_diag, firstn_all. cbn [firstn]. now rewrite app_nil_r.
+  - unfold rinit. rewrite unpack_app, !unpack_cons.
+    rewrite (sync_loop_junk ts_packet_size junk 0 0%Z x (unpack T)); try assumption; try discriminate.
+    + now rewrite Z.add_0_l, Hlen.
+    + unfold ts_packet_size. lia.
+Qed.
+
 (* NewADTSHeader produces canonical headers for every table frequency, 3-bit channel configuration
    and 13-bit payload length *)
 Lemma new_adts_canonical f ch pl h :
@@ -220,12 +262,20 @@ Proof.
 Qed.
 
 (* ---------- complete enumerations ---------- *)
-Definition nrange (lo n : N) : list N := map N.of_nat (seq (N.to_nat lo) (N.to_nat n)).
+(* lo, lo+1, ..., lo+n-1 built with N.succ (no nat -> N conversion per element) *)
+Fixpoint nrange_from (fuel : nat) (lo : N) : list N :=
+  match fuel with O => [] | S f => lo :: nrange_from f (N.succ lo) end.
+Definition nrange (lo n : N) : list N := nrange_from (N.to_nat n) lo.
+
+Lemma in_nrange_from : forall fuel lo x, lo <= x < lo + N.of_nat fuel -> In x (nrange_from fuel lo).
+Proof.
+  induction fuel as [|f IH]; intros lo x H; [lia|].
+  cbn [nrange_from]. destruct (N.eq_dec lo x) as [->|Hne]; [now left|].
+  right. apply IH. lia.
+Qed.
 
 Lemma in_nrange lo n x : lo <= x < lo + n -> In x (nrange lo n).
-Proof.
-  intros H. unfold nrange. apply in_map_iff. exists (N.to_nat x). split; [lia|]. apply in_seq. lia.
-Qed.
+Proof. intros H. unfold nrange. apply in_nrange_from. lia. Qed.
 
 Definition grid_plens : list N := [0; 8184].
 Definition grid_bfs : list N := [0; 2047].
